@@ -379,14 +379,21 @@ class C22(core.Check):
             'global variable whose fetch function touches errno) under a seeded schedule (uniform / sticky / PCT) '
             'with switch points between ops and inside callback bodies; every observation is compared with a '
             'one-integer-per-thread model. non-trivial = at least two threads made observations and at least one '
-            'context switch happened; distinct = digest of the (client, point) trace and observations')
+            'context switch happened; distinct = digest of the (client, point) trace and observations. '
+            'Also: pairs of brand-new foreign threads held at a gate right before they take the GIL, C callers '
+            'that hold the GIL, functions without arguments; and a second phase that runs the start-up simulator '
+            'of C28 (engine C) to observe the errno with which cffi_call_python is entered on calls into an '
+            'embedded library, including the call that starts Python')
     components = {
         'real': ['_cffi_backend save_errno/restore_errno, b_get_errno/b_set_errno, invoke_callback, cffi_call_python, '
                  'cglob accessors (private sim build; USE__THREAD on and off)',
                  'generated API-mode wrappers (_cffi_restore_errno/_cffi_save_errno) of a helper module built from the cffi under test',
-                 'real C errno of real threads'],
-        'simulated': ['thread scheduling (baton passing)'],
-        'stub': [],
+                 'real C errno of real threads',
+                 'second phase: the generated embedding start-up code (_embedding.h: _cffi_start_and_call_python, '
+                 '_cffi_start_python) of two embedded libraries'],
+        'simulated': ['thread scheduling (baton passing)', 'second phase: coroutine scheduling of the start-up code'],
+        'stub': ['second phase: CPython (its start-up and the init code clobber errno) and cffi_call_python (records '
+                 'the errno it is entered with)'],
     }
     assumptions = ['what the C errno holds between cffi calls is not asserted (CPython may clobber it); only values '
                    'passed through cffi are']
